@@ -215,6 +215,7 @@ MkGen(x) ==
     [] x.kind = "rule"  -> NewRule(x.anchor, x.rule)
     [] x.kind = "qpages" -> NewPagesQuery(x.ps, x.oc)
     [] x.kind = "qnet" -> NewNetQuery(x.out, x.auto)
+    [] x.kind = "qlinks" -> NewLinksQuery(x.ps, x.out)
     [] OTHER -> QueryGen
 
 CoopRam(rm, gs, S) ==
@@ -258,6 +259,7 @@ CoopClauses(st, rm, d, gs, S, post, o0, o1) ==
       <<"bind.done",   isq \/ r.g.done = S.a.done>>,
       <<"bind.report", isq \/ ~S.a.done \/ (r.g.pages = S.pages /\ r.g.created = S.created)>>,
       <<"bind.qresult", (gs[S.a.g].kind = "qpages" /\ S.a.done /\ S.exc = "") => r.g.acc = S.a.result>>,
+      <<"bind.qlinks",  (gs[S.a.g].kind = "qlinks" /\ S.a.done /\ S.exc = "") => r.g.acc = SeqSet(S.a.weids)>>,
       <<"bind.qnet",    (gs[S.a.g].kind = "qnet" /\ S.a.done /\ S.exc = "") => r.g.graph = Trip3(S.a.net)>>,
       <<"bind.trie",   r.st.trie = post.trie>>,
       <<"bind.links",  r.st.ls = post.ls>>,
